@@ -31,7 +31,7 @@ type RR struct {
 
 // Inj is an action of the environment.
 type Inj struct {
-	Kind    string `json:"k"` // strobe | invalidate | stop | purge | flush (RerunImmediately)
+	Kind    string `json:"k"` // strobe | invalidate | stop | purge | flush (RerunImmediately) | outside (AddDependency without a rerunner)
 	Target  int    `json:"t"` // slot or rerunner
 	DelayUs int    `json:"delay_us"`
 }
@@ -56,6 +56,7 @@ type Case struct {
 	PSeed    uint64 `json:"pseed"`
 	TimerBud int    `json:"timer_budget"`
 	FailBud  int    `json:"fail_budget"`
+	DelayUs  int    `json:"wtr_delay_us,omitempty"` // reactive.WriteThenReadDelay for this case
 	Origin   string `json:"origin"`
 }
 
@@ -152,8 +153,10 @@ func genInj(r *vh.Rng, c *Case, stopPct int) Inj {
 		return Inj{Kind: "invalidate", Target: r.Intn(c.Slots), DelayUs: r.Intn(400)}
 	case k < 75+stopPct:
 		return Inj{Kind: "stop", Target: r.Intn(len(c.RRs)), DelayUs: r.Intn(400)}
-	case k < 94:
+	case k < 90:
 		return Inj{Kind: "purge", Target: r.Intn(len(c.RRs)), DelayUs: r.Intn(400)}
+	case k < 95:
+		return Inj{Kind: "outside", Target: r.Intn(c.Slots), DelayUs: r.Intn(400)}
 	default:
 		return Inj{Kind: "flush", Target: r.Intn(len(c.RRs)), DelayUs: r.Intn(400)}
 	}
@@ -192,6 +195,13 @@ func Gen(r *vh.Rng, flavour string) Case {
 			}
 			c.Rules = append(c.Rules, ru)
 		}
+	}
+	if r.Chance(20) {
+		// a share of the histories runs with a real write-then-read delay (the re-run sleeps with r.mu held);
+		// Stop is then aimed at a run that has just taken r.mu
+		c.DelayUs = 3000 + r.Intn(9000)
+		in := Inj{Kind: "stop", Target: r.Intn(len(c.RRs))}
+		c.Rules = append(c.Rules, Rule{Point: "reactive.run.locked", Nth: 2 + r.Intn(4), Inject: &in, HoldUs: 100 + r.Intn(400)})
 	}
 	c.Perturb = []int{0, 10, 30, 60}[r.Intn(4)]
 	c.PSeed = r.U64()
